@@ -19,6 +19,7 @@ var fsCalls = map[uint64]string{
 	1: "write", 3: "close", 2: "open", 257: "openat", 82: "rename", 264: "renameat", 316: "renameat2", 87: "unlink", 263: "unlinkat",
 	83: "mkdir", 258: "mkdirat", 74: "fsync", 75: "fdatasync", 77: "ftruncate", 18: "pwrite64", 20: "writev", 84: "rmdir", 85: "creat",
 	86: "link", 265: "linkat", 88: "symlink", 266: "symlinkat", 90: "chmod", 91: "fchmod", 268: "fchmodat", 76: "truncate", 285: "fallocate",
+	326: "copy_file_range", 40: "sendfile", 275: "splice", 296: "pwritev", 328: "pwritev2", // what io.Copy between files turns into
 }
 
 const (
